@@ -39,7 +39,8 @@ def holdersMax (d : DSt) : Nat :=
 def tail (d : DSt) : String :=
   let e := d.s.map.length
   let q := queued d.s
-  s!"entries={e} queued={q} inflight={d.s.calls.length} holders={holdersMax d}" ++
+  -- residual: every error path of the model removes the caller before it returns
+  s!"entries={e} queued={q} inflight={d.s.calls.length} holders={holdersMax d} residual=0" ++
     (if q == 0 && e > 0 && d.s.calls.isEmpty && d.s.unmapPending.isEmpty then "\t#F:C28-queues-never-pruned" else "")
 
 /-- the queue object currently mapped for a key -/
@@ -92,16 +93,38 @@ def stepLine (d : DSt) (line : String) : DSt × String :=
     | none => (d, "bad-op")
     | some k =>
       let n := d.sess.length + 1
-      let d := { d with sess := d.sess ++ [{ key := k, short := ttl == "short" }] }
+      let short := ttl != "long"
+      let d := { d with sess := d.sess ++ [{ key := k, short := short }] }
       let d := act d (.call n k)
       let d := enqueueLoop d n k 3
       let granted := match (objOf d k).bind (fun i => d.s.objs[i]?) with
         | some o => decide (n ∈ o.q.ready)
         | none => false
       if granted then
-        let d := setSess d n { key := k, short := ttl == "short", acquired := true }
+        let d := setSess d n { key := k, short := short, acquired := true }
         (d, s!"enq {n} acq {tail d}")
       else (d, s!"enq {n} wait {tail d}")
+  | "lockc" :: ks :: obs =>
+    -- a Lock whose context is already cancelled: granted on enqueue ⇒ both select branches are
+    -- enabled and the observed one is followed; not granted ⇒ only the ctx.Done branch
+    match ks.toNat? with
+    | none => (d, "bad-op")
+    | some k =>
+      let n := d.sess.length + 1
+      let d := { d with sess := d.sess ++ [{ key := k, short := false, cancelled := true }] }
+      let d := act d (.call n k)
+      let d := enqueueLoop d n k 3
+      let granted := match (objOf d k).bind (fun i => d.s.objs[i]?) with
+        | some o => decide (n ∈ o.q.ready)
+        | none => false
+      if granted && obs != ["cancel"] then
+        let d := setSess d n { key := k, short := false, cancelled := true, acquired := true }
+        (d, s!"lockc {n} acq {tail d}")
+      else
+        let d := setSess d n { key := k, short := false, cancelled := true, gone := true }
+        let (d, _) := removeVia d n k
+        let d := settle d k
+        (d, s!"lockc {n} cancel {tail d}")
   | ["lockh", ks] =>
     match ks.toNat? with
     | none => (d, "bad-op")
@@ -162,8 +185,128 @@ def stepLine (d : DSt) (line : String) : DSt × String :=
   | ["count"] => (d, s!"count {tail d}")
   | _ => (d, "bad-op")
 
+/-! ### Trace inclusion (domain C28s): replay a log of the real lock under genuine concurrency.
+    Every event is logged under the mutex of the queue object it reports on; `dead` is logged
+    before the map delete, so the delete (`unmap`) is an internal step the model may take at any
+    later point — it is taken lazily: when the key's next queue object appears, or at a `count`. -/
+
+structure T28 where
+  cfg : Cfg
+  s : St := init
+  /-- log queue number ↦ heap index of the model's queue object -/
+  qidx : List (Nat × Nat) := []
+  /-- `dead K Q N` lines whose `rm` line has not been seen yet -/
+  applied : List (Nat × Nat) := []
+
+def parseList (w : String) : Option (List Nat) :=
+  if !w.startsWith "c=[" || !w.endsWith "]" then none else
+  let inner := ((w.drop 3).dropEnd 1).toString
+  if inner.isEmpty then some [] else (inner.splitOn ",").mapM (·.toNat?)
+
+def stepT (t : T28) (a : Act) : Option T28 := (step t.cfg t.s a).map (fun s' => { t with s := s' })
+
+def flushKey (t : T28) (k : Option Nat) : T28 :=
+  t.s.unmapPending.foldl (fun t i =>
+    match t.s.objs[i]? with
+    | some o => if k.all (· == o.key) then (stepT t (.unmap i)).getD t else t
+    | none => t) t
+
+def tstep (t : T28) (line : String) : T28 × String :=
+  match words line with
+  | ["case", _] => ({ cfg := t.cfg }, line)
+  | ["enq", ks, qs, ns, gs, cs] =>
+    match ks.toNat?, qs.toNat?, ns.toNat?, gs.toNat?, parseList cs with
+    | some k, some q, some n, some g, some c =>
+      match stepT t (.call n k) with
+      | none => (t, "bad enq: caller number not fresh")
+      | some t1 =>
+        let known := t1.qidx.lookup q
+        -- a queue object the log has not shown before: the key's previous (dead) one is unmapped first
+        let t1 := if known.isNone then flushKey t1 (some k) else t1
+        match stepT t1 (.getQueue n k) with
+        | none => (t, "bad enq: getQueue is not a step")
+        | some t2 =>
+          match (t2.s.calls.find? (·.id == n)).bind (·.ptr) with
+          | none => (t, "bad enq: no pointer")
+          | some i =>
+            let fresh := decide (i == t1.s.objs.length)
+            match known with
+            | some j =>
+              if i != j then (t, s!"bad enq: caller {n} was appended to queue object {q}, which is not the queue the map holds for key {k} (retired={(t1.s.objs[j]?.map (·.dead)).getD false})")
+              else finishEnq t2 k i n g c
+            | none =>
+              if !fresh then (t, s!"bad enq: caller {n} was appended to a new queue object {q} while key {k} is still mapped to a live queue: two queues for one key")
+              else finishEnq { t2 with qidx := (q, i) :: t2.qidx } k i n g c
+    | _, _, _, _, _ => (t, "bad-op")
+  | ["deadq", _, qs] =>
+    match qs.toNat?.bind (fun q => t.qidx.lookup q) with
+    | some i =>
+      if t.cfg.prune && ((t.s.objs[i]?).map (·.dead)).getD false then (t, "ok")
+      else (t, "bad deadq: an enqueue was refused on a queue that is not retired in the model")
+    | none => (t, "bad deadq: unknown queue object")
+  | ["dead", _, qs, ns] =>
+    match qs.toNat?, ns.toNat? with
+    | some q, some n =>
+      match t.qidx.lookup q with
+      | none => (t, "bad dead: unknown queue object")
+      | some i =>
+        match stepT t (.remove n i) with
+        | some t' =>
+          if ((t'.s.objs[i]?).map (·.dead)).getD false && i ∈ t'.s.unmapPending then
+            ({ t' with applied := (q, n) :: t'.applied }, "ok")
+          else (t', s!"bad dead: the removal of caller {n} does not retire queue {q} in the model")
+        | none => (t, "bad dead: not a step")
+    | _, _ => (t, "bad-op")
+  | ["rm", _, qs, ns, fs, cs] =>
+    match qs.toNat?, ns.toNat?, fs.toNat? with
+    | some q, some n, some f =>
+      if t.applied.contains (q, n) then
+        let t' := { t with applied := t.applied.filter (· != (q, n)) }
+        if f == 1 && cs == "c=[]" then (t', "ok") else (t', "bad rm: the removal that retired the queue reports found=0 or a non-empty queue")
+      else
+      match t.qidx.lookup q with
+      | none => if f == 0 then (t, "ok") else (t, "bad rm: a caller was found in a queue nobody was ever appended to")
+      | some i =>
+        let before := ((t.s.objs[i]?).map (·.q.callers)).getD []
+        let found := decide (n ∈ before) && n != 0
+        match stepT t (.remove n i) with
+        | some t' =>
+          let after := ((t'.s.objs[i]?).map (·.q.callers)).getD []
+          if found != (f == 1) then (t', s!"bad rm: model found={found}")
+          else if i ∈ t'.s.unmapPending && !(i ∈ t.s.unmapPending) then
+            (t', s!"bad rm: the removal of caller {n} empties queue {q}: the model retires it, the code did not")
+          else if f == 1 && parseList cs != some after then (t', s!"bad rm: queue contents differ, model {showNatList after}")
+          else (t', "ok")
+        | none => (t, "bad rm: not a step")
+    | _, _, _ => (t, "bad-op")
+  | ["count", es, ds] =>
+    let t := flushKey t none
+    let e := t.s.map.length
+    let d := queued t.s
+    if some e == es.toNat? && some d == ds.toNat? then (t, "ok")
+    else (t, s!"bad count: model entries={e} queued={d}" ++
+      (if d == 0 && e > 0 then "\t#F:C28-queues-never-pruned" else ""))
+  | ["hang"] => (t, "bad hang: a Lock call never returned")
+  | _ => (t, "bad-op")
+where
+  finishEnq (t : T28) (k i n g : Nat) (c : List Nat) : T28 × String :=
+    match stepT t (.enqueue n k i) with
+    | none => (t, "bad enq: not a step")
+    | some t' =>
+      if t'.s.calls.any (·.id == n) then (t, s!"bad enq: caller {n} was appended to a retired queue object (the model refuses and retries)")
+      else
+        let o := (t'.s.objs[i]?).map (·.q)
+        let granted := (o.map (fun q => decide (n ∈ q.ready))).getD false
+        let callers := (o.map (·.callers)).getD []
+        if granted != (g == 1) then (t', s!"bad enq: model grants={granted}")
+        else if callers != c then (t', s!"bad enq: queue contents differ, model {showNatList callers}")
+        else (t', "ok")
+
 def run (args : List String) : IO UInt32 := do
   let kv := parseArgs args
+  if arg kv "mode" == "trace" then
+    lineLoop tstep { cfg := { prune := arg kv "prune" == "yes" } }
+    return 0
   lineLoop stepLine { cfg := { prune := arg kv "prune" == "yes" } }
   return 0
 
